@@ -16,6 +16,8 @@ Case (JSON):
   {"stream": "grid"|"agg"|"unjudged", "vt": "o"|"c", "tentative": bool,
    "declare": 0 (not declared) | 1 (the interface itself) | 2 (an interface derived from it),
    "cand": "instance" | "class" (verifyClass) | "classobj" (verifyObject on a class that directlyProvides),
+   "pre": [[ "I"|"ISub"|"IBase", "getitem"|"contains"|"get"|"query"|"direct", name ], ...]  single-name
+          look-ups performed on the interface / a derived / the base interface BEFORE verifying,
    "elems": [{"level": "base"|"own"|"override",
               "desc": {"kind": "attr"} | {"kind": "method", "params": "<parameter list>"},
               "base_params": "<parameter list>"   (override only: what the base interface says)
@@ -67,7 +69,28 @@ def build_iface(case):
         "\n".join(base_lines) or "    pass", "\n".join(own_lines) or "    pass")
     ns = {"Interface": Interface, "Attribute": Attribute}
     exec(src, ns)
-    return ns["I"], ns["ISub"], src
+    return ns["I"], ns["ISub"], ns["IBase"], src
+
+
+def pre_queries(case, ifaces):
+    """single-name look-ups a program may have done before verifying; results are irrelevant"""
+    for target, op, name in case.get("pre", ()):
+        iface = ifaces[target]
+        try:
+            if op == "getitem":
+                iface[name]
+            elif op == "contains":
+                name in iface
+            elif op == "get":
+                iface.get(name)
+            elif op == "query":
+                iface.queryDescriptionFor(name)
+            elif op == "direct":
+                iface.direct(name)
+            else:
+                raise ValueError(op)
+        except KeyError:
+            pass
 
 
 def build_candidate(case, I, ISub):
@@ -203,12 +226,25 @@ def err_desc(e, names):
 
 
 def run_case(case):
-    I, ISub, isrc = build_iface(case)
+    I, ISub, IBase, isrc = build_iface(case)
     cand, call_through, csrc = build_candidate(case, I, ISub)
     names = {"n%d" % i: i for i in range(len(case["elems"]))}
     res = {}
-    res["order"] = [names.get(n, -1) for n, _d in I.namesAndDescriptions(all=True)]
     vt = case["vt"]
+    # 1. earlier look-ups, then the verification itself (nothing else touches the interface before)
+    pre_queries(case, {"I": I, "ISub": ISub, "IBase": IBase})
+    fn = verifyClass if vt == "c" else verifyObject
+    try:
+        r = fn(I, cand, tentative=bool(case["tentative"]))
+        res["out"] = ["ok"] if r is True else ["exc", "returned:" + repr(r)[:40]]
+    except MultipleInvalid as e:
+        res["out"] = ["multi", [err_desc(x, names) for x in e.exceptions]]
+    except Invalid as e:
+        res["out"] = ["single", err_desc(e, names)]
+    except Exception as e:  # noqa
+        res["out"] = ["exc", type(e).__name__]
+    # 2. the inputs of the model / the Spec, as the public API reports them
+    res["order"] = [names.get(n, -1) for n, _d in I.namesAndDescriptions(all=True)]
     tester = I.implementedBy if vt == "c" else I.providedBy
     try:
         res["declares"] = bool(tester(cand))
@@ -229,16 +265,6 @@ def run_case(case):
         if rows is not None:
             oracle.append([i, rows])
     res["oracle"] = oracle
-    fn = verifyClass if vt == "c" else verifyObject
-    try:
-        r = fn(I, cand, tentative=bool(case["tentative"]))
-        res["out"] = ["ok"] if r is True else ["exc", "returned:" + repr(r)[:40]]
-    except MultipleInvalid as e:
-        res["out"] = ["multi", [err_desc(x, names) for x in e.exceptions]]
-    except Invalid as e:
-        res["out"] = ["single", err_desc(e, names)]
-    except Exception as e:  # noqa
-        res["out"] = ["exc", type(e).__name__]
     return res
 
 
